@@ -91,8 +91,8 @@ def pomo_training_axes(ctx: Ctx):
     """C16.h POMO's shared baseline is `reward.mean(dim=1)` of `unbatchify(reward, (n_aug, n_start))`: axis 1 is the start axis only
     when the augmentation factor is dropped from the layout, i.e. n_aug == 0 -- `unbatchify` skips factors <= 0, while a factor 1
     yields [batch, 1, starts] and the mean over the singleton axis equals the reward (every advantage 0, no gradient).  So on the
-    training path `n_aug = 0` is reached for EVERY configured num_augment: each condition guarding that assignment reads `phase`
-    only."""
+    training path `n_aug = 0` is reached for EVERY configured num_augment: each condition guarding that assignment reads parameters
+    of shared_step (the phase) only -- never the augmentation factor or another local."""
     import ast
     rel = "rl4co/models/zoo/pomo/model.py"
     fi = ctx.repo.get_function(rel, "POMO.shared_step")
@@ -100,10 +100,17 @@ def pomo_training_axes(ctx: Ctx):
         raise AnalysisError("POMO.shared_step not found")
     ctx.fn(fi)
     found = []
+    # the augmentation factor: the first entry of the shape tuple handed to unbatchify (identified by position, not by name)
+    augs = {c.args[1].elts[0].id for c in ast.walk(fi.node) if isinstance(c, ast.Call) and (getattr(c.func, "id", None) == "unbatchify" or getattr(c.func, "attr", None) == "unbatchify")
+            and len(c.args) > 1 and isinstance(c.args[1], ast.Tuple) and len(c.args[1].elts) == 2 and isinstance(c.args[1].elts[0], ast.Name)}
+    if len(augs) != 1:
+        raise AnalysisError(f"POMO.shared_step: augmentation factor of unbatchify(.., (n_aug, n_start)) not identified: {sorted(augs)}")
+    aug = next(iter(augs))
+    params = set(fi.params())
 
     def visit(stmts, guards):
         for st in stmts:
-            if isinstance(st, ast.Assign) and any(isinstance(t, ast.Name) and t.id == "n_aug" for t in st.targets) and isinstance(st.value, ast.Constant) and st.value.value == 0:
+            if isinstance(st, ast.Assign) and any(isinstance(t, ast.Name) and t.id == aug for t in st.targets) and isinstance(st.value, ast.Constant) and st.value.value == 0:
                 found.append((st, list(guards)))
             if isinstance(st, ast.If):
                 visit(st.body, guards + [st.test])
@@ -116,10 +123,10 @@ def pomo_training_axes(ctx: Ctx):
         raise AnalysisError("POMO.shared_step: `n_aug = 0` for the training phase not found")
     for st, guards in found:
         names = sorted({x.id for g in guards for x in ast.walk(g) if isinstance(x, ast.Name)})
-        ok = bool(guards) and names == ["phase"]
+        ok = bool(guards) and all(n in params for n in names)
         ctx.ob("C16.h", "POMO.shared_step:training-drops-the-augmentation-axis", ok, f"{rel}:{st.lineno}",
                f"`n_aug = 0` is guarded by {[ast.unparse(g) for g in guards]}" +
-               ("" if ok else f" -- the guard also depends on {[n for n in names if n != 'phase']}: for some configured num_augment the training layout keeps a singleton augmentation axis, "
+               ("" if ok else f" -- the guard also depends on {[n for n in names if n not in params]}: for some configured num_augment the training layout keeps a singleton augmentation axis, "
                 "the shared baseline (mean over axis 1) equals the reward and the loss carries no gradient"),
                construct="POMO.shared_step:n_aug-reset-guard")
 
